@@ -1,5 +1,6 @@
 import FinamModel.DriverUtil
 import FinamModel.Sched
+import FinamModel.Output
 /-! Driver handlers for the scheduler model (C01–C05, C13, C20). -/
 namespace Finam.Driver.Sched
 open Lean Finam Finam.Driver
@@ -64,7 +65,35 @@ def handleDeps (j : Json) : Json :=
     ("rec", match updateRec s (s.comps.length + 1) c [] none with
             | .ok (some u) => jNat u | .ok none => Json.null | .error e => jSErr e)]
 
+
+/-- C13: pushes and pulls over one link `Output >> adapters >> Input` (adapters consumer side first);
+    answers for a pull: the time that reaches the source output and the index of the publication served -/
+def handleC13 (j : Json) : Json :=
+  let ads := (getArr j "ads").map parseAd
+  let init := getInt j "init"
+  let ndp := getNat j "ndp"
+  let rec go (hist : List (Entry Int)) (newest : Int) (dp : DP) (idx : Int) (evs : List Json) (acc : List Json) : List Json :=
+    match evs with
+    | [] => acc.reverse
+    | e :: rest =>
+      match arr e with
+      | [k, t] =>
+        let t := asInt t
+        if asStr k == "push" then go (hist ++ [⟨t, idx⟩]) t dp (idx + 1) rest (Json.null :: acc)
+        else
+          let s : State := { comps := [], outs := [⟨0, newest⟩], dp := dp }
+          let (dp', r) := pullChain s dp ads 0 t
+          let ans := match r with
+            | none => Json.mkObj [("reach", Json.null)]
+            | some t' => Json.mkObj [("reach", jInt t'), ("value", jRes jInt (lookup hist t'))]
+          -- `_pulled` runs only after the source answered: a refused request leaves the tables unchanged
+          let ok := match r with | some t' => (match lookup hist t' with | .ok _ => true | .error _ => false) | none => true
+          go hist newest (if ok then dp' else dp) idx rest (ans :: acc)
+      | _ => go hist newest dp idx rest (Json.null :: acc)
+  Json.mkObj [("results", Json.arr (go [] init (List.replicate ndp []) 0 (getArr j "events") []).toArray),
+              ("need0", jOptInt (need (List.replicate ndp []) ads (getInt j "probe")))]
+
 def handlers : List (String × (Json → Json)) :=
-  [("sched_run", handleRun), ("sched_need", handleNeed), ("sched_deps", handleDeps)]
+  [("sched_run", handleRun), ("sched_need", handleNeed), ("sched_deps", handleDeps), ("c13", handleC13)]
 
 end Finam.Driver.Sched
